@@ -578,7 +578,8 @@ def opCtxPaths (inp : Json) : Except String Json := do
   let dt := Ctx.typeFromContext sch top (tp :: noIdx)
   pure (Json.mkObj [("doc", partsJ' docPath), ("stored", Json.bool stored),
     ("field", partsJ' (Ctx.fieldPathFromContext sch tp path)),
-    ("dt", exceptJ Json.str dt)])
+    ("dt", exceptJ Json.str dt),
+    ("dtIdx", exceptJ Json.str (Ctx.typeFromContext sch top (tp :: path)))])
 
 def opCtxTypeId (inp : Json) : Except String Json := do
   let sch ← ctxSchemaOf (← inp.getObjVal? "schema")
